@@ -235,6 +235,36 @@ def _check(case, notes):
                     out.append(("C06:family-product:si-meaning", "1 %s = %.17g SI but 1 %s = %.17g SI" % (case["text"], float(x / F(VALS[0])), case["equals"], float(y / F(VALS[0])))))
                 got = a.convert(b.units)
                 _check_result("family-product:convert", a, got, uq.sys_of(b.units), uq.dim_of(b.units), out, case)
+        elif sub in ("ctor", "ctor_mismatch"):
+            # the converting CONSTRUCTOR: UnitValue(<quantity text or UnitValue>, <target units>[, convert=False]) and
+            # UnitArray(<UnitArray>, <target units>[, convert=False]); the target is a units string or a Units object
+            src, dst, dim = tuple(case["src"]), tuple(case["dst"]), tuple(case["dim"])
+            d2 = tuple(case["dim2"]) if sub == "ctor_mismatch" else dim
+            cls, given, form, conv = case["cls"], case["given"], case["form"], case["conv"]
+            q0 = uq.mk_uv(VALS[0], src, dim) if cls == "UnitValue" else uq.mk_ua(VALS, src, dim)
+            arg = "%r %s" % (VALS[0], si.units_string(src, dim)) if given == "text" else q0
+            tgt = _target(form, dst, d2)
+            kw = {} if conv == "default" else {"convert": False}
+            before = (_values(q0), uq.sys_of(q0.units), uq.dim_of(q0.units))
+            tag = "%s:%s:%s:%s:convert-%s" % (sub, cls, given, form, conv)
+            if sub == "ctor":
+                got = UnitValue(arg, tgt, **kw) if cls == "UnitValue" else UnitArray(arg, tgt, **kw)
+                if conv == "default":
+                    _check_result(tag, q0, got, dst, dim, out, case, exact_identity=(src == dst))
+                else:
+                    # not converted: whatever units the result reports, it is still the quantity given
+                    _check_result(tag, q0, got, uq.sys_of(got.units), dim, out, case)
+            else:
+                try:
+                    got = UnitValue(arg, tgt, **kw) if cls == "UnitValue" else UnitArray(arg, tgt, **kw)
+                except Exception:
+                    notes.append("ctor_mismatch_raised")
+                else:
+                    out.append(("C06:%s:accepted" % tag, "%s(%s, %s%s) of dimension %s with target units of dimension %s returned %s instead of raising"
+                                % (cls, repr(arg) if given == "text" else str(arg), "%r" % (tgt,) if form == "str" else "Units(%r)" % str(tgt),
+                                   "" if conv == "default" else ", convert=False", dim, d2, got)))
+            if (_values(q0), uq.sys_of(q0.units), uq.dim_of(q0.units)) != before:
+                out.append(("C06:%s:operand-mutated" % tag, "the constructor changed the quantity it was given"))
         elif sub == "carrier":
             src, dst, dim = tuple(case["src"]), tuple(case["dst"]), tuple(case["dim"])
             car, route = case["carrier"], case["route"]
@@ -521,6 +551,33 @@ def _spaces(tier):
                         yield {"sub": "set_at_mismatch", "src": a, "dst": b, "dim": d1, "dim2": d2}
     sp.append(("set_at mismatch: every ordered pair of different dimensions of {-1,0,1}^3 x {different systems, same default system, "
                "same non-default system} must raise", gen_setat_mis, 27 * 26 * 3))
+    CTOR = [("UnitValue", "text"), ("UnitValue", "object"), ("UnitArray", "object")]
+
+    def gen_ctor():
+        for a in S36:
+            for b in S36:
+                for dim in dims_f:
+                    for cls, given in CTOR:
+                        for form in ("str", "Units"):
+                            for conv in ("default", "False"):
+                                yield {"sub": "ctor", "src": a, "dst": b, "dim": dim, "cls": cls, "given": given, "form": form, "conv": conv}
+    sp.append(("constructor route: UnitValue(quantity text | UnitValue, target) and UnitArray(UnitArray, target), target a units string "
+               "or a Units object, convert default / False: 36x36 systems x 4 dimensions x 3 x 2 x 2", gen_ctor,
+               36 * 36 * len(dims_f) * len(CTOR) * 2 * 2))
+
+    def gen_ctor_mis():
+        for d1 in c1:
+            for d2 in c1:
+                if d1 != d2:
+                    for cls, given in CTOR:
+                        for form in ("str", "Units"):
+                            for conv in ("default", "False"):
+                                for (a, b) in ((si.MIXED[0], si.MIXED[3]), (si.DEFAULT, si.DEFAULT), (si.MIXED[0], si.MIXED[0])):
+                                    yield {"sub": "ctor_mismatch", "src": a, "dst": b, "dim": d1, "dim2": d2, "cls": cls, "given": given,
+                                           "form": form, "conv": conv}
+    sp.append(("constructor mismatch: the same constructor calls with target units of a different dimension must raise: every ordered "
+               "pair of different dimensions of {-1,0,1}^3 x 3 x 2 target forms x convert default / False x 3 system pairs", gen_ctor_mis,
+               27 * 26 * len(CTOR) * 2 * 2 * 3))
     return sp
 
 
@@ -538,7 +595,7 @@ def _work(job):
         for n_ in notes:
             acc.count(n_)
         acc.add(states=1, transitions=1, traces=1, evaluations=1)
-        nt = case.get("src") != case.get("dst") or case["sub"] in ("compose", "family", "mismatch", "famprod", "history", "items", "set_at_mismatch")
+        nt = case.get("src") != case.get("dst") or case["sub"] in ("compose", "family", "mismatch", "famprod", "history", "items", "set_at_mismatch", "ctor_mismatch")
         if nt:
             seen_nt += 1
         for key, what in res:
